@@ -642,3 +642,30 @@ Lemma wrapped_group_refuted_as_found : forall pascal snake kebab ftag fsg,
     = [SValue (bs "op") (VString (bs "Get")); SValue (bs "n") (VMetric (OU 1) 0 [(bs "k", bs "v")] false)] /\
   root_sg pascal snake kebab ftag fsg true witness_wrapped_group = [(bs "op", bs "Get")].
 Proof. intros. vm_compute. destruct fsg; repeat split. Qed.
+
+(* ================================================================= trees used by the pinned Examples *)
+(* metrique/README.md "Combining renaming strategies" (+ an absent Option, a unit, a value(string) enum) *)
+Definition readme_combined : edef :=
+  EStruct Kebab None
+    (FCons (bs "foo_bar") (KField None None false (LNum (OU 1) 0))
+    (FCons (bs "overridden_field") (KField (Some (bs "custom_name")) None false (LStr (bs "x")))
+    (FCons (bs "nested") (KFlatten (Some (PInfl (bs "his-"))) Plain
+       (EStruct Pascal (Some (PInfl (bs "api_")))
+          (FCons (bs "latency") (KField None (Some 4) false (LNum (OU 5) 0))
+          (FCons (bs "response_time") (KField (Some (bs "exact_name")) None false (LOpt false (LNum (OU 0) 0)))
+          (FCons (bs "operation") (KField None None true (LEnum Snake [(bs "CountDucks", None)] 0)) FNil)))))
+     FNil))).
+
+
+(* the examples of the macro documentation, names only *)
+Definition names_of (its : list item) : list bytes :=
+  flat_map (fun it => match it with IValue n _ _ => [n] | ITimestamp _ => [] end) its.
+Definition sub_ducks : edef :=
+  EStruct Preserve None
+    (FCons (bs "request_latency") (KField None None false (LNum (OF 0) 4))
+    (FCons (bs "number_of_ducks") (KField (Some (bs "NDucks")) None false (LNum (OU 0) 0)) FNil)).
+Definition run_names (d : edef) : list bytes := names_of (root_write to_pascal_case to_snake_case to_kebab_case true d).
+Definition spec_names (d : edef) : list bytes :=
+  flat_map (fun it => match it with SValue n _ => [n] | STimestamp _ => [] end)
+           (spec_items to_pascal_case to_snake_case to_kebab_case d).
+
